@@ -1,17 +1,212 @@
 (* C18 - property theorems only.  Each is closed by [exact] of a lemma of
-   Proofs*.v and followed by Print Assumptions. *)
-From VF.C18 Require Import Model ProofsA.
+   Proofs*.v and followed by Print Assumptions.
+
+   Vocabulary (Model.v / Proofs*.v):
+   - [run derive empty_root cache_len start ops] is the history obtained from a
+     fresh queue (newQueue + Prepare(start)) by the operations [ops]; it records
+     the state, everything Results handed out ([t_released], in order) and
+     every header Schedule accepted ([t_scheduled], in order).
+   - [derive] is types.DeriveSha on a transaction list, [empty_root] is
+     types.EmptyRootHash; both are universally quantified, the only fact used
+     is [derive [] = empty_root].
+   - the operations are Schedule / Reserve / Deliver / Cancel / Expire / Revoke /
+     Results with arbitrary arguments: any number of peers, any bodies
+     (complete, partial, empty, wrong, duplicated, unsolicited deliveries are
+     all just values of [Deliver p bodies]).
+   - [weak_legal_op]: Schedule is called with from = start + number of headers
+     accepted so far (processHeaders aborts the sync otherwise), CancelBodies is
+     given headers that were accepted by Schedule (possibly a stale request).
+   - [strict_legal_op]: moreover CancelBodies is given the request that is
+     pending for that peer, and resultSlots' item limit is <= the cache length.
+   - [legal_history]: every operation is strictly legal and no two accepted
+     headers share a hash (collision freedom of the header hash). *)
+From Coq Require Import Permutation.
+From VF.C18 Require Import Model ProofsA ProofsB ProofsC ProofsD ProofsE ProofsF ProofsG ProofsH ProofsI.
 Local Open Scope N_scope.
 
-(* 1. Order, exactly once.  For every tx-root function, every cache size,
-   every start number and EVERY sequence of operations (any peers, any
-   interleaving of Schedule / Reserve / Deliver / Cancel / Expire / Revoke /
-   Results with arbitrary arguments, legal or not): the numbers of the blocks
-   handed out by all Results calls, concatenated, are start, start+1, start+2,
-   ... - ascending, gap free, no number twice. *)
+(* 1. Order, exactly once - for EVERY operation sequence, legal or not: the
+   numbers of the blocks handed out by all Results calls, concatenated, are
+   start, start+1, start+2, ... (ascending, gap free, no number twice). *)
 Theorem C18_order_once :
   forall derive empty_root cache_len start ops,
     map rnum (t_released (run derive empty_root cache_len start ops)) =
     Nseq start (length (t_released (run derive empty_root cache_len start ops))).
 Proof. exact released_in_order. Qed.
 Print Assumptions C18_order_once.
+
+(* 2. Matching body, the right header - for every history in which Schedule is
+   called with the running number (stale or repeated CancelBodies, Revoke,
+   Expire, lying peers ... all allowed): the headers handed out are exactly
+   the first accepted headers in Schedule's order, accepted numbers are
+   start, start+1, ..., and every block handed out carries a transaction list
+   whose root equals the header's transaction root. *)
+Theorem C18_prefix_with_matching_body :
+  forall derive empty_root, derive [] = empty_root ->
+  forall start cache_len ops,
+    legal_from derive empty_root (weak_legal_op start) (T (init cache_len start) [] []) ops ->
+    let t := run derive empty_root cache_len start ops in
+    map r_hdr (t_released t) = firstn (length (t_released t)) (t_scheduled t) /\
+    map h_num (t_scheduled t) = Nseq start (length (t_scheduled t)) /\
+    Forall (fun r => derive (r_txs r) = h_root (r_hdr r)) (t_released t).
+Proof. exact released_prefix_matching. Qed.
+Print Assumptions C18_prefix_with_matching_body.
+
+(* 3. Nothing is lost, nothing is duplicated - in every legal history the
+   accepted, not yet released headers are, as a multiset, exactly: task queue
+   + the requests of the peers + completed cache slots (so each is in exactly
+   one place: they are pairwise distinct); at most one request per peer; the
+   done pool names exactly the completed slots; every requested or completed
+   header owns the cache slot number - offset. *)
+Theorem C18_nothing_lost :
+  forall derive empty_root, derive [] = empty_root ->
+  forall cache_len start ops,
+    legal_history derive empty_root cache_len start ops ->
+    let t := run derive empty_root cache_len start ops in
+    let s := t_state t in
+    Permutation (tqueue s ++ flat (pend s) ++ completed s)
+                (skipn (length (t_released t)) (t_scheduled t)) /\
+    NoDup (skipn (length (t_released t)) (t_scheduled t)) /\
+    NoDup (map fst (pend s)) /\
+    (forall x, In x (done s) <-> In x (map h_hash (completed s))) /\
+    (forall h, In h (flat (pend s) ++ completed s) ->
+       exists r, nth (Z.to_nat (slot_index s h)) (cache s) None = Some r /\ r_hdr r = h).
+Proof. exact nothing_lost. Qed.
+Print Assumptions C18_nothing_lost.
+
+(* 4. In every state of a legal history ReserveBodies never reaches "index
+   allocation went beyond available resultCache space" (errInvalidChain), for
+   any peer, count and throttle limit, and DeliverBodies never reports
+   errInvalidChain, whatever is delivered. *)
+Theorem C18_cache_index_in_range :
+  forall derive empty_root, derive [] = empty_root ->
+  forall cache_len start ops,
+    legal_history derive empty_root cache_len start ops ->
+    let s := t_state (run derive empty_root cache_len start ops) in
+    (forall p count limit, (N.to_nat limit <= cache_len)%nat ->
+       snd (snd (reserve empty_root p count limit s)) = false) /\
+    (forall p bs, snd (snd (deliver derive p bs s)) <> 2).
+Proof. exact never_invalid_chain. Qed.
+Print Assumptions C18_cache_index_in_range.
+
+(* 5. Completion - from every state of a legal history (any number of stalled,
+   lying, failed or vanished peers holding requests): for any peer p the queue
+   does not believe to lack data, and true bodies [body], there is a finite
+   continuation made only of Expire (the stalled requests time out),
+   Reserve p / Deliver p (p is asked and answers with the true bodies) and
+   Results, all legal, after which every accepted header has been handed out. *)
+Theorem C18_completion :
+  forall derive empty_root, derive [] = empty_root ->
+  forall cache_len, (1 <= cache_len)%nat ->
+  forall start (body : header -> list N) p ops,
+    legal_history derive empty_root cache_len start ops ->
+    let t := run derive empty_root cache_len start ops in
+    fresh p (t_state t) ->
+    (forall h, In h (t_scheduled t) -> derive (body h) = h_root h) ->
+    exists ops',
+      legal_from derive empty_root (strict_legal_op cache_len start) t ops' /\
+      Forall (only_p p) ops' /\
+      let t' := run derive empty_root cache_len start (ops ++ ops') in
+      t_scheduled t' = t_scheduled t /\ map r_hdr (t_released t') = t_scheduled t.
+Proof. exact completion. Qed.
+Print Assumptions C18_completion.
+
+(* The property, all clauses, for legal histories. *)
+Definition C18_full : Prop :=
+  forall (derive : list N -> N) (empty_root : N), derive [] = empty_root ->
+  forall (cache_len : nat), (1 <= cache_len)%nat ->
+  forall (start : N) (ops : list op),
+  legal_history derive empty_root cache_len start ops ->
+  let t := run derive empty_root cache_len start ops in
+  let s := t_state t in
+  map rnum (t_released t) = Nseq start (length (t_released t)) /\
+  map r_hdr (t_released t) = firstn (length (t_released t)) (t_scheduled t) /\
+  Forall (fun r => derive (r_txs r) = h_root (r_hdr r)) (t_released t) /\
+  Permutation (tqueue s ++ flat (pend s) ++ completed s)
+              (skipn (length (t_released t)) (t_scheduled t)) /\
+  (forall (body : header -> list N) (p : N),
+     fresh p s -> (forall h, In h (t_scheduled t) -> derive (body h) = h_root h) ->
+     exists ops',
+       legal_from derive empty_root (strict_legal_op cache_len start) t ops' /\
+       Forall (only_p p) ops' /\
+       map r_hdr (t_released (run derive empty_root cache_len start (ops ++ ops'))) = t_scheduled t).
+
+Theorem C18_full_holds : C18_full.
+Proof. exact full_statement. Qed.
+Print Assumptions C18_full_holds.
+
+(* ---- non-vacuity ------------------------------------------------------------------- *)
+(* a tx-root function with derive [] = 0 *)
+Definition ex_derive (txs : list N) : N :=
+  match txs with [] => 0 | [a] => 10 + a | a :: _ => 100 + a end.
+
+(* four headers from number 5: an empty block, two blocks with one transaction,
+   an empty block *)
+Definition h5 := H 5 1 9 0.
+Definition h6 := H 6 2 1 11.
+Definition h7 := H 7 3 2 12.
+Definition h8 := H 8 4 3 0.
+Definition ex_body (h : header) : list N :=
+  if h_num h =? 6 then [1] else if h_num h =? 7 then [2] else [].
+
+(* peer 1 takes 6 and 7 and stalls; its request expires; peer 2 takes them,
+   delivers 6 correctly and lies about 7; peer 3 answers empty (is marked
+   lacking) and is revoked; peer 1 holds 7 again while the empty block 8 completed *)
+Definition ex_ops : list op :=
+  [ Schedule [h5; h6; h7] 5; Reserve 1 3 3; Results; Schedule [h8] 8;
+    Expire [1]; Reserve 2 2 3; Deliver 2 [[1]; [7]]; Results;
+    Reserve 3 1 3; Deliver 3 []; Revoke 3; Reserve 1 3 3 ].
+
+Definition ex_t := run ex_derive 0 3 5 ex_ops.
+
+Example C18_nonvacuous_legal_history :
+  legal_history ex_derive 0 3 5 ex_ops /\
+  (* blocks 5 and 6 were handed out, 7 is requested from peer 1, 8 completed without a fetch *)
+  map rnum (t_released ex_t) = [5; 6] /\
+  pend (t_state ex_t) = [(1, [h7])] /\
+  done (t_state ex_t) = [4] /\
+  lacks (t_state ex_t) = [(3, 3)] /\
+  t_scheduled ex_t = [h5; h6; h7; h8].
+Proof.
+  split; [|vm_compute; repeat split; reflexivity].
+  split.
+  - vm_compute. repeat split; auto.
+  - vm_compute. repeat constructor; simpl; intuition discriminate.
+Qed.
+Print Assumptions C18_nonvacuous_legal_history.
+
+(* the hypotheses of the completion theorem hold for peer 4 in that state, and
+   the continuation indeed exists: one is exhibited *)
+Example C18_nonvacuous_completion :
+  fresh 4 (t_state ex_t) /\
+  (forall h, In h (t_scheduled ex_t) -> ex_derive (ex_body h) = h_root h) /\
+  let ops' := [Expire [1]; Reserve 4 1 3; Deliver 4 [[2]]; Results] in
+  legal_from ex_derive 0 (strict_legal_op 3 5) ex_t ops' /\
+  Forall (only_p 4) ops' /\
+  map r_hdr (t_released (run ex_derive 0 3 5 (ex_ops ++ ops'))) = [h5; h6; h7; h8].
+Proof.
+  split; [intros h; vm_compute; destruct (h =? 3); reflexivity|].
+  split.
+  - vm_compute. intros h [<-|[<-|[<-|[<-|[]]]]]; reflexivity.
+  - split; [vm_compute; repeat split; auto|].
+    split; [repeat constructor|]. vm_compute. reflexivity.
+Qed.
+Print Assumptions C18_nonvacuous_completion.
+
+(* a history outside the strict discipline but inside the weak one (a stale
+   CancelBodies after the request expired: the header is queued twice): theorem
+   2 still applies and both copies end in the same, correctly filled, slot *)
+Definition ex_stale : list op :=
+  [ Schedule [h5; h6] 5; Reserve 1 3 3; Expire [1]; Cancel 1 [h6];
+    Reserve 2 3 3; Deliver 2 [[1]; [1]]; Results ].
+
+Example C18_nonvacuous_stale_cancel :
+  legal_from ex_derive 0 (weak_legal_op 5) (T (init 3 5) [] []) ex_stale /\
+  ~ legal_from ex_derive 0 (strict_legal_op 3 5) (T (init 3 5) [] []) ex_stale /\
+  map r_hdr (t_released (run ex_derive 0 3 5 ex_stale)) = [h5; h6] /\
+  map r_pending (t_released (run ex_derive 0 3 5 ex_stale)) = [0; -1]%Z.
+Proof.
+  split; [vm_compute; repeat split; auto; intros ? [<-|[]]; auto|].
+  split; [|vm_compute; auto].
+  vm_compute. intros (_ & _ & _ & H & _). discriminate.
+Qed.
+Print Assumptions C18_nonvacuous_stale_cancel.
